@@ -3,10 +3,13 @@
   final jump, the end label) and the main induction.
 -/
 import GLua.Proofs.LoweringValue6
+import GLua.Proofs.LoweringArith
 
 namespace GLua.Lowering
 open GLua.Compile GLua.MiniVM GLua.CondSpec
 
+variable [NumStruct]
+set_option linter.unusedSectionVars false
 variable {V : Type}
 
 /-- from any exit of the operands to the end of the expression: through the end label directly, or through
@@ -116,9 +119,10 @@ theorem logical_tail_facts (F r2st : CState) (a : Nat) (lb : LbLabels) (b : Bool
     · rfl
 
 
-theorem exprSem_and (d : Dom V) (l r : Cond) (hfl : BCFrag l) (hfr : BCFrag r) (hl : AuxSem d l) (hr : AuxSem d r) :
+theorem exprSem_and (d : Dom V) (l r : Cond) (hl : AuxSem d l) (hr : AuxSem d r) :
     ExprSem d (.and l r) := by
   intro st F reg ec ρ γ v htop hloc hreg hsreg hev hok hF hK hlab
+  simp only [rh] at hreg
   simp only [comp, newLabel] at hF hK hlab ⊢
   simp only [LocalsBelow] at hloc
   generalize hs4 : ({ st with labelId := st.labelId + 1 + 1 + 1 + 1 } : CState) = s4 at hF hK hlab ⊢
@@ -129,14 +133,14 @@ theorem exprSem_and (d : Dom V) (l r : Cond) (hfl : BCFrag l) (hfr : BCFrag r) (
   have hlbe : lb.e = st.labelId := by subst hlb; rfl
   have hlbt : lb.t = st.labelId + 1 := by subst hlb; rfl
   have hlbf : lb.f = st.labelId + 2 := by subst hlb; rfl
-  obtain ⟨f1, hlt1, hb1⟩ := (comp_frame l hfl).2 s4 reg ec (st.labelId + 1 + 1 + 1) st.labelId false lb false (by rw [hs4_top]; exact htop)
+  obtain ⟨f1, hlt1, hb1, _⟩ := (comp_frame l).2 s4 reg ec (st.labelId + 1 + 1 + 1) st.labelId false lb false (by rw [hs4_top]; exact htop)
   generalize hr1 : comp l (.aux reg ec (st.labelId + 1 + 1 + 1) st.labelId false lb false) s4 = r1 at hF hK hlab f1 hlt1 hb1 ⊢
   generalize hsc : setLabelHere r1.st (st.labelId + 1 + 1 + 1) = sc at hF hK hlab ⊢
   have hsc_code : sc.code = r1.st.code := by subst hsc; rfl
   have hsc_id : sc.labelId = r1.st.labelId := by subst hsc; rfl
   have hsc_top : sc.regTop = st.regTop := by subst hsc; simp [f1.regTop, hs4_top]
   have hsc_consts : sc.consts = r1.st.consts := by subst hsc; rfl
-  obtain ⟨f2, hlt2, hb2⟩ := (comp_frame r hfr).2 sc reg ec st.labelId st.labelId false lb r1.b (by rw [hsc_top]; exact htop)
+  obtain ⟨f2, hlt2, hb2, _⟩ := (comp_frame r).2 sc reg ec st.labelId st.labelId false lb r1.b (by rw [hsc_top]; exact htop)
   generalize hr2 : comp r (.aux reg ec st.labelId st.labelId false lb r1.b) sc = r2 at hF hK hlab f2 hlt2 hb2 ⊢
   have hid1 : st.labelId + 4 ≤ r1.st.labelId := by rw [← hs4_id]; exact f1.labelId
   have hid2 : r1.st.labelId ≤ r2.st.labelId := by rw [← hsc_id]; exact f2.labelId
@@ -166,13 +170,13 @@ theorem exprSem_and (d : Dom V) (l r : Cond) (hfl : BCFrag l) (hfr : BCFrag r) (
   have hpre1 : r1.st.code <+: F.code := by
     apply hEmb.prefix_lt (by rw [← hsc_code]; exact f2.code) (by rw [← hsc_code]; exact hlt2)
   have H1 : AuxHyp s4 F reg ec (st.labelId + 1 + 1 + 1) st.labelId false lb :=
-    { htop := by rw [hs4_top]; exact htop, hreg := hreg, hsreg := hsreg,
+    { htop := by rw [hs4_top]; exact htop, hreg := (by omega), hsreg := hsreg,
       hthen := by omega, helse := by omega, hle := by omega, hlt := by omega, hlf := by omega,
       het := by rw [hlbe, hlbt]; omega, hef := by rw [hlbe, hlbf]; omega,
       disc := ⟨fun h => Bool.noConfusion h, fun h => (by omega), fun h => (by omega)⟩,
       okThen := hok _, okElse := hok _, okE := hok _, okT := hok _, okF := hok _, allOK := hok }
   have H2 : AuxHyp sc F reg ec st.labelId st.labelId false lb :=
-    { htop := by rw [hsc_top]; exact htop, hreg := hreg, hsreg := hsreg,
+    { htop := by rw [hsc_top]; exact htop, hreg := (by omega), hsreg := hsreg,
       hthen := by omega, helse := by omega, hle := by omega, hlt := by omega, hlf := by omega,
       het := by rw [hlbe, hlbt]; omega, hef := by rw [hlbe, hlbf]; omega,
       disc := ⟨fun h => Bool.noConfusion h, fun _ => hlbe.symm, fun _ h => absurd rfl h⟩,
@@ -190,7 +194,7 @@ theorem exprSem_and (d : Dom V) (l r : Cond) (hfl : BCFrag l) (hfr : BCFrag r) (
         ρ'' (savereg ec reg) = v ∧ DestFrame reg (savereg ec reg) ρ ρ'' := by
     intro ρ1 hf1 hevr
     have hevr' : eval d ρ1 γ r = some v := by rw [eval_congr d hf1 r hloc.2]; exact hevr
-    obtain ⟨ρ2, pc2, hreach2, hout2⟩ := hr sc F reg ec st.labelId st.labelId false lb r1.b ρ1 γ v H2 hloc.2 hevr'
+    obtain ⟨ρ2, pc2, hreach2, hout2⟩ := hr sc F reg ec st.labelId st.labelId false lb r1.b ρ1 γ v H2 hloc.2 (by omega) hevr'
       (by rw [hr2, ← hlbe]; exact hEmb) (by rw [hr2]; exact hK)
       (by rw [hr2]; intro L h1 h2; exact hlabIn L (by omega) h2)
     rw [hr2] at hout2
@@ -216,7 +220,7 @@ theorem exprSem_and (d : Dom V) (l r : Cond) (hfl : BCFrag l) (hfr : BCFrag r) (
   | none => simp [hvl] at hev
   | some vl =>
     simp only [hvl] at hev
-    obtain ⟨ρ1, pc1, hreach1, hout1⟩ := hl s4 F reg ec (st.labelId + 1 + 1 + 1) st.labelId false lb false ρ γ vl H1 hloc.1 hvl
+    obtain ⟨ρ1, pc1, hreach1, hout1⟩ := hl s4 F reg ec (st.labelId + 1 + 1 + 1) st.labelId false lb false ρ γ vl H1 hloc.1 (by omega) hvl
       (by rw [hr1]; exact Or.inl hpre1)
       (by rw [hr1]; exact (hsc_consts ▸ f2.consts).trans hK)
       (by rw [hr1]; intro L h1 h2
@@ -247,9 +251,10 @@ theorem exprSem_and (d : Dom V) (l r : Cond) (hfl : BCFrag l) (hfr : BCFrag r) (
       exact ⟨ρ'', hreach1.trans hfin, hv, hd'⟩
 
 
-theorem exprSem_or (d : Dom V) (l r : Cond) (hfl : BCFrag l) (hfr : BCFrag r) (hl : AuxSem d l) (hr : AuxSem d r) :
+theorem exprSem_or (d : Dom V) (l r : Cond) (hl : AuxSem d l) (hr : AuxSem d r) :
     ExprSem d (.or l r) := by
   intro st F reg ec ρ γ v htop hloc hreg hsreg hev hok hF hK hlab
+  simp only [rh] at hreg
   simp only [comp, newLabel] at hF hK hlab ⊢
   simp only [LocalsBelow] at hloc
   generalize hs4 : ({ st with labelId := st.labelId + 1 + 1 + 1 + 1 } : CState) = s4 at hF hK hlab ⊢
@@ -260,14 +265,14 @@ theorem exprSem_or (d : Dom V) (l r : Cond) (hfl : BCFrag l) (hfr : BCFrag r) (h
   have hlbe : lb.e = st.labelId := by subst hlb; rfl
   have hlbt : lb.t = st.labelId + 1 := by subst hlb; rfl
   have hlbf : lb.f = st.labelId + 2 := by subst hlb; rfl
-  obtain ⟨f1, hlt1, hb1⟩ := (comp_frame l hfl).2 s4 reg ec st.labelId (st.labelId + 1 + 1 + 1) true lb false (by rw [hs4_top]; exact htop)
+  obtain ⟨f1, hlt1, hb1, _⟩ := (comp_frame l).2 s4 reg ec st.labelId (st.labelId + 1 + 1 + 1) true lb false (by rw [hs4_top]; exact htop)
   generalize hr1 : comp l (.aux reg ec st.labelId (st.labelId + 1 + 1 + 1) true lb false) s4 = r1 at hF hK hlab f1 hlt1 hb1 ⊢
   generalize hsc : setLabelHere r1.st (st.labelId + 1 + 1 + 1) = sc at hF hK hlab ⊢
   have hsc_code : sc.code = r1.st.code := by subst hsc; rfl
   have hsc_id : sc.labelId = r1.st.labelId := by subst hsc; rfl
   have hsc_top : sc.regTop = st.regTop := by subst hsc; simp [f1.regTop, hs4_top]
   have hsc_consts : sc.consts = r1.st.consts := by subst hsc; rfl
-  obtain ⟨f2, hlt2, hb2⟩ := (comp_frame r hfr).2 sc reg ec st.labelId st.labelId false lb r1.b (by rw [hsc_top]; exact htop)
+  obtain ⟨f2, hlt2, hb2, _⟩ := (comp_frame r).2 sc reg ec st.labelId st.labelId false lb r1.b (by rw [hsc_top]; exact htop)
   generalize hr2 : comp r (.aux reg ec st.labelId st.labelId false lb r1.b) sc = r2 at hF hK hlab f2 hlt2 hb2 ⊢
   have hid1 : st.labelId + 4 ≤ r1.st.labelId := by rw [← hs4_id]; exact f1.labelId
   have hid2 : r1.st.labelId ≤ r2.st.labelId := by rw [← hsc_id]; exact f2.labelId
@@ -297,13 +302,13 @@ theorem exprSem_or (d : Dom V) (l r : Cond) (hfl : BCFrag l) (hfr : BCFrag r) (h
   have hpre1 : r1.st.code <+: F.code := by
     apply hEmb.prefix_lt (by rw [← hsc_code]; exact f2.code) (by rw [← hsc_code]; exact hlt2)
   have H1 : AuxHyp s4 F reg ec st.labelId (st.labelId + 1 + 1 + 1) true lb :=
-    { htop := by rw [hs4_top]; exact htop, hreg := hreg, hsreg := hsreg,
+    { htop := by rw [hs4_top]; exact htop, hreg := (by omega), hsreg := hsreg,
       hthen := by omega, helse := by omega, hle := by omega, hlt := by omega, hlf := by omega,
       het := by rw [hlbe, hlbt]; omega, hef := by rw [hlbe, hlbf]; omega,
       disc := ⟨fun _ => (by omega), fun h => (by omega), fun _ _ => rfl⟩,
       okThen := hok _, okElse := hok _, okE := hok _, okT := hok _, okF := hok _, allOK := hok }
   have H2 : AuxHyp sc F reg ec st.labelId st.labelId false lb :=
-    { htop := by rw [hsc_top]; exact htop, hreg := hreg, hsreg := hsreg,
+    { htop := by rw [hsc_top]; exact htop, hreg := (by omega), hsreg := hsreg,
       hthen := by omega, helse := by omega, hle := by omega, hlt := by omega, hlf := by omega,
       het := by rw [hlbe, hlbt]; omega, hef := by rw [hlbe, hlbf]; omega,
       disc := ⟨fun h => Bool.noConfusion h, fun _ => hlbe.symm, fun _ h => absurd rfl h⟩,
@@ -321,7 +326,7 @@ theorem exprSem_or (d : Dom V) (l r : Cond) (hfl : BCFrag l) (hfr : BCFrag r) (h
         ρ'' (savereg ec reg) = v ∧ DestFrame reg (savereg ec reg) ρ ρ'' := by
     intro ρ1 hf1 hevr
     have hevr' : eval d ρ1 γ r = some v := by rw [eval_congr d hf1 r hloc.2]; exact hevr
-    obtain ⟨ρ2, pc2, hreach2, hout2⟩ := hr sc F reg ec st.labelId st.labelId false lb r1.b ρ1 γ v H2 hloc.2 hevr'
+    obtain ⟨ρ2, pc2, hreach2, hout2⟩ := hr sc F reg ec st.labelId st.labelId false lb r1.b ρ1 γ v H2 hloc.2 (by omega) hevr'
       (by rw [hr2, ← hlbe]; exact hEmb) (by rw [hr2]; exact hK)
       (by rw [hr2]; intro L h1 h2; exact hlabIn L (by omega) h2)
     rw [hr2] at hout2
@@ -347,7 +352,7 @@ theorem exprSem_or (d : Dom V) (l r : Cond) (hfl : BCFrag l) (hfr : BCFrag r) (h
   | none => simp [hvl] at hev
   | some vl =>
     simp only [hvl] at hev
-    obtain ⟨ρ1, pc1, hreach1, hout1⟩ := hl s4 F reg ec st.labelId (st.labelId + 1 + 1 + 1) true lb false ρ γ vl H1 hloc.1 hvl
+    obtain ⟨ρ1, pc1, hreach1, hout1⟩ := hl s4 F reg ec st.labelId (st.labelId + 1 + 1 + 1) true lb false ρ γ vl H1 hloc.1 (by omega) hvl
       (by rw [hr1]; exact Or.inl hpre1)
       (by rw [hr1]; exact (hsc_consts ▸ f2.consts).trans hK)
       (by rw [hr1]; intro L h1 h2
@@ -378,32 +383,42 @@ theorem exprSem_or (d : Dom V) (l r : Cond) (hfl : BCFrag l) (hfr : BCFrag r) (h
       exact ⟨ρ'', hreach1.trans hfin, hv, hd'⟩
 
 
-/-- **the value-context lowering is correct** on the fragment, in both modes. -/
-theorem value_main (d : Dom V) (hd : d.Lawful) : ∀ (e : Cond), BCFrag e → ExprSem d e ∧ AuxSem d e := by
+/-- the main induction: expression mode, aux mode and the operand part of concatenation chains, all at once. -/
+theorem value_main3 (d : Dom V) (hd : d.Lawful) : ∀ (e : Cond), ExprSem d e ∧ AuxSem d e ∧ ChainS d e := by
   intro e
   induction e with
-  | tru => intro _; exact ⟨exprSem_leaf d .tru rfl, auxSem_tru d hd⟩
-  | fls => intro _; exact ⟨exprSem_leaf d .fls rfl, auxSem_fls d hd⟩
-  | nil => intro _; exact ⟨exprSem_leaf d .nil rfl, auxSem_nil d hd⟩
-  | num n => intro _; exact ⟨exprSem_leaf d (.num n) rfl, auxSem_num d hd n⟩
-  | str s => intro _; exact ⟨exprSem_leaf d (.str s) rfl, auxSem_str d hd s⟩
-  | loc r => intro _; exact ⟨exprSem_leaf d (.loc r) rfl, auxSem_loc d r⟩
-  | ev id => intro _; exact ⟨exprSem_leaf d (.ev id) rfl, auxSem_ev d id⟩
+  | tru => exact ⟨exprSem_leaf d .tru rfl, auxSem_tru d hd, fun _ _ h => by cases h⟩
+  | fls => exact ⟨exprSem_leaf d .fls rfl, auxSem_fls d hd, fun _ _ h => by cases h⟩
+  | nil => exact ⟨exprSem_leaf d .nil rfl, auxSem_nil d hd, fun _ _ h => by cases h⟩
+  | num n => exact ⟨exprSem_leaf d (.num n) rfl, auxSem_num d hd n, fun _ _ h => by cases h⟩
+  | str s => exact ⟨exprSem_leaf d (.str s) rfl, auxSem_str d hd s, fun _ _ h => by cases h⟩
+  | loc r => exact ⟨exprSem_leaf d (.loc r) rfl, auxSem_loc d r, fun _ _ h => by cases h⟩
+  | ev id => exact ⟨exprSem_leaf d (.ev id) rfl, auxSem_ev d id, fun _ _ h => by cases h⟩
   | not c ih =>
-    intro hf
-    have hex := exprSem_not d hd c (comp_frame c hf).1 (ih hf).1
-    exact ⟨hex, auxSem_not d c (comp_frame (.not c) hf).1 hex⟩
-  | rel op l r _ _ => intro hf; exact ⟨exprSem_rel d hd op l r hf.1 hf.2, auxSem_rel d hd op l r hf.1 hf.2⟩
-  | and l r ihl ihr =>
-    intro hf
-    have hal := (ihl hf.1).2
-    have har := (ihr hf.2).2
-    exact ⟨exprSem_and d l r hf.1 hf.2 hal har, auxSem_and d l r hf.1 hf.2 hal har⟩
-  | or l r ihl ihr =>
-    intro hf
-    have hal := (ihl hf.1).2
-    have har := (ihr hf.2).2
-    exact ⟨exprSem_or d l r hf.1 hf.2 hal har, auxSem_or d l r hf.1 hf.2 hal har⟩
+    have hex := exprSem_not d hd c (comp_frame c).1 ih.1
+    exact ⟨hex, auxSem_not d c (comp_frame (.not c)).1 hex, fun _ _ h => by cases h⟩
+  | unm c ih =>
+    have hex := exprSem_unm d hd c (comp_frame c).1 ih.1
+    exact ⟨hex, auxSem_unm d c (comp_frame (.unm c)).1 hex, fun _ _ h => by cases h⟩
+  | len c ih =>
+    have hex := exprSem_len d hd c (comp_frame c).1 ih.1
+    exact ⟨hex, auxSem_len d c (comp_frame (.len c)).1 hex, fun _ _ h => by cases h⟩
+  | arith op l r ihl ihr =>
+    have hex := exprSem_arith d hd op l r (comp_frame l).1 (comp_frame r).1 ihl.1 ihr.1
+    exact ⟨hex, auxSem_arith d op l r (comp_frame (.arith op l r)).1 hex, fun _ _ h => by cases h⟩
+  | concat l r ihl ihr =>
+    have hch := chainSem_concat d l r ihl.1 ihr.1 ihr.2.2
+    have hex := exprSem_concat' d l r hch
+    exact ⟨hex, auxSem_concat d l r (comp_frame (.concat l r)).1 hex, fun l' r' h => by cases h; exact hch⟩
+  | rel op l r ihl ihr =>
+    exact ⟨exprSem_rel d hd op l r (comp_frame l).1 (comp_frame r).1 ihl.1 ihr.1,
+      auxSem_rel d hd op l r (comp_frame l).1 (comp_frame r).1 ihl.1 ihr.1, fun _ _ h => by cases h⟩
+  | and l r ihl ihr => exact ⟨exprSem_and d l r ihl.2.1 ihr.2.1, auxSem_and d l r ihl.2.1 ihr.2.1, fun _ _ h => by cases h⟩
+  | or l r ihl ihr => exact ⟨exprSem_or d l r ihl.2.1 ihr.2.1, auxSem_or d l r ihl.2.1 ihr.2.1, fun _ _ h => by cases h⟩
+
+/-- **the value-context lowering is correct** for EVERY expression of the model, in both modes. -/
+theorem value_main (d : Dom V) (hd : d.Lawful) (e : Cond) : ExprSem d e ∧ AuxSem d e :=
+  ⟨(value_main3 d hd e).1, (value_main3 d hd e).2.1⟩
 
 
 /-- every label binding of a store built by the compiler is ≥ -1 (`SetLabelPc(label, LastPC())`), an unbound label reads 0. -/
